@@ -24,6 +24,16 @@ behaviour), dev (device register/window: never checked), ovlp (cell covered by t
 relative precedence is undocumented: it must behave, consistently, like ONE of the covering overlays -- the
 model keeps one "personality" per covering overlay and drops those an observation contradicts).
 
+Overlays registered INSIDE the internal window (start >= 0x100000, wholly within 0x100000..0x1000FF): nothing
+documents whether the 256-byte internal memory consults the overlay table (upstream: Rust never does, Python only
+for an overlay lying inside the key-port block 0xF0..0xF2) -> such a cell is an overlap cell ("int-ovlp") whose
+candidates are the plain internal RAM byte and the covering overlay(s); every internal cell NOT covered by an
+overlay stays plain internal RAM whatever overlays exist elsewhere.
+
+Rejected / empty configuration calls (["rej", kind, arg] in cfg["seq"] and in the history): the model ignores
+them -- a call that is refused (Err / exception) or that names no location (zero-sized overlay, removal of an
+unknown name) must not change what any location reads.
+
 Configuration order: the card-slot calls (load_memory_card / set_memory_card_present /
 set_memory_card_slot_present) and the overlay registrations are applied in the order given by cfg["seq"]
 (see steps / card_outcome); the reference outcome is "the later call wins":
@@ -84,6 +94,7 @@ def pat_bytes(k: int, base: int, n: int) -> bytes:
 def steps(cfg: Dict[str, Any]) -> List[List[Any]]:
     """Ordered card-slot / overlay configuration steps of a cfg:
          ["card", {"size","k","writable"}] | ["slot", bool] | ["ovl", index into cfg["ovl"]]
+         | ["rm", index into cfg["ovl"]] (remove_overlay of that overlay's name) | ["rej", kind, a, b]
     cfg["seq"] gives the order explicitly; overlays it does not mention are registered afterwards.  Older cases
     without "seq" (keys "card"/"slot") mean: load the card, then declare the slot state, then the overlays."""
     out: List[List[Any]] = []
@@ -99,6 +110,18 @@ def steps(cfg: Dict[str, Any]) -> List[List[Any]]:
         if i not in named:
             out.append(["ovl", i])
     return out
+
+
+def live_overlays(cfg: Dict[str, Any]) -> set:
+    """Indices of the cfg["ovl"] overlays that are registered when the history starts: ["rm", i] =
+    remove_overlay(name of overlay i) -- a no-op when it comes before the registration (unknown name)."""
+    live = set()
+    for stp in steps(cfg):
+        if stp[0] == "ovl":
+            live.add(stp[1])
+        elif stp[0] == "rm":
+            live.discard(stp[1])
+    return live
 
 
 def card_outcome(cfg: Dict[str, Any]) -> Dict[str, Any]:
@@ -166,12 +189,26 @@ class Model:
             ovl_idx.append(len(regs))
             regs.append(tuple(reg))
 
-        for o in cfg.get("ovl") or []:
+        self.int_ovl = False
+        live = live_overlays(cfg)
+        for i, o in enumerate(cfg.get("ovl") or []):
+            if i not in live:
+                continue  # registered and removed again before the first access: as if never registered
             lo, hi = o["start"], o["start"] + o["size"] - 1
+            if lo >= INT:
+                self.int_ovl = True
             if o["kind"] == "ram":
                 overlay(lo, hi, "oram", "ram", ("zero",))
             else:
                 overlay(lo, hi, "orom", "ro", ("pat", o["k"]))
+        # Python: a (data-backed) overlay lying wholly inside the key-port block 0x1000F0..0x1000F2 is taken for the
+        # keyboard port overlay by PCE500Memory.add_overlay (situation flag kb-data-ovl, see describe)
+        self.kb_data_ovl = self.py and any(
+            INT + 0xF0 <= o["start"] and o["start"] + o["size"] - 1 <= INT + 0xF2 for o in cfg.get("ovl") or [])
+        if self.int_ovl:
+            # overlays inside the internal window: the plain internal RAM is the other candidate of every cell they
+            # cover (see module docstring), so it takes part in the overlap computation like an overlay
+            overlay(INT, INT + 0xFF, "int", "ram", ("zero",))
         oc = card_outcome(cfg)
         card, absent = oc["card"], oc["absent"]
         late: List[Tuple] = []  # card-window regions that are NOT overlays (base array): below every overlay
@@ -257,6 +294,8 @@ class Model:
                 # keyboard KOL/KOH/KIL, E-port, SIO (a TXD write changes USR), IMR/ISR, SCR/LCC/SSR: device
                 # registers once the machine's peripherals are attached (C12/C14 cover them)
                 return "int-io", "dev"
+            if self.int_ovl and self.in_overlap(cell):
+                return "int-ovlp", "ovlp"
             return "int", "ram"
         if self.ovlp_spans and self.in_overlap(cell):
             return "ovlp", "ovlp"
@@ -285,7 +324,7 @@ class Model:
         return False
 
     def _base_init(self, cell: int) -> int:
-        if self.fill is None:
+        if self.fill is None or cell >= INT:
             return 0
         if self.py and cell >= 0xFFF00:
             return 0
@@ -293,7 +332,7 @@ class Model:
 
     def init(self, cell: int, first: int = 0) -> Any:
         """Initial content of a cell as seen through region #first and the layers below it."""
-        if cell >= INT:
+        if cell >= INT and not self.int_ovl:
             return 0
         for lo, hi, name, cls, ini in self.regions[first:]:
             if lo <= cell <= hi:
@@ -327,7 +366,7 @@ class Model:
         return {p[0] for p in self._pers(cell)}
 
     def get(self, cell: int) -> Any:
-        if self.ovlp_spans and cell < INT and self.in_overlap(cell):
+        if self.ovlp_spans and (cell < INT or self.int_ovl) and self.in_overlap(cell):
             vals = set()
             for cls, val in self._pers(cell):
                 if val is None:
@@ -518,7 +557,9 @@ def describe(m: Model, addr: int, nbytes: int) -> Tuple[str, List[str]]:
     alias), split (the bytes' canonical cells are not consecutive), int-end (multi-byte access running past internal
     offset 0xFF), ext-top (multi-byte access running from external space into 0x100000), mir-split (mir + split),
     ovl-edge (multi-byte access with some bytes inside overlays and some outside every overlay), ro-edge
-    (multi-byte access with some bytes in a read-only range / ROM window and some not)."""
+    (multi-byte access with some bytes in a read-only range / ROM window and some not), kb-data-ovl (Python, a
+    property of the configuration: a RAM/ROM overlay lies wholly inside the key-port block 0x1000F0..0x1000F2, which
+    PCE500Memory takes for the keyboard port overlay)."""
     cells = m.cells(addr, nbytes)
     names: List[str] = []
     per_byte: List[str] = []
@@ -551,6 +592,8 @@ def describe(m: Model, addr: int, nbytes: int) -> Tuple[str, List[str]]:
             break
     if split:
         flags.append("split")
+    if m.kb_data_ovl:
+        flags.append("kb-data-ovl")
     if nbytes > 1:
         first = addr & 0xFFFFFF
         last = first + nbytes - 1
